@@ -127,7 +127,7 @@ SPEC_NEXT = r"""
             && innermost(old(scopes).frames(), name@) < 0
             ==> r is Err && at(r->Err_0, *name_loc)
                 && (inner(r->Err_0) matches Error::Undefined{name: n} && n@ == name@)
-                && final(scopes).frames() == old(scopes).frames(), // [C20:assigning_or_op_assigning_an_undeclared_name_is_an_error_at_that_name]
+                && final(scopes).frames() == old(scopes).frames(), // [C18_C20:assigning_or_op_assigning_an_undeclared_name_is_an_error_at_that_name]
         name@ != "_"@ && !old(names_in_binding)@.contains(name@) && bind_type is Assignment && op is None
             && innermost(old(scopes).frames(), name@) >= 0
             ==> r is Ok && ({
@@ -189,7 +189,7 @@ def build(read):
         MODEL,
         "// ---- verbatim from src/eval/bind.rs", bind_type,
         "impl Clone for BindType { #[verifier::external_body] fn clone(&self) -> (r: Self) ensures r == *self { unimplemented!() } }\nimpl Copy for BindType {}",
-        "pub mod value {\n    use super::*;\n// ---- verbatim from src/eval/value.rs\n" + new_val + "\n}",
+        parts.value_ctors(b, read, ["new_val_ref_with_no_source", "new_val_ref_with_source", "new_null", "new_bool", "new_int", "new_str", "new_list", "new_object"]),
         "// ---- functions under contract (verbatim bodies; contract text inserted at anchors)",
         f_name, f_next,
         parts.FOOTER,
